@@ -145,7 +145,7 @@ Outcome RunC05(RunCtx& ctx)
 	g.allowIntKeys = archive == A_MSGPACK;
 	g.maxNodes = 30;
 	g.forceContainerRoot = true;
-	if (archive == A_XML || archive == A_CSV) g.allowEmptyContainers = false;   // KF-XML-EMPTY-CONTAINER / KF-CSV-EMPTY-TABLE (owned by C01)
+	if (archive == A_CSV) g.allowEmptyContainers = false;   // KF-CSV-EMPTY-TABLE (owned by C01)
 	if (archive == A_JSON) g.simpleFloats = true;                               // KF-JSON-DOUBLE-PRECISION (owned by C01)
 	if (s.chance(sim::L_CFG, 1, 2)) g.kindMask = s.draw(sim::L_CFG, 0xFFFFFFFFu) | (1u << static_cast<int>(K::I32));
 	SerializationOptions o = GenLoadOptions(s, sim::L_CFG, archive);
